@@ -60,32 +60,46 @@ def check_ref(rep, crate, prop):
         got_l = got.split('\n')
         if got_l == e['summary']:
             rep.ok('REF', key, loc(b.raw), 'summary: ' + ' | '.join(got_l)[:400], fn=e['path'])
-        elif semantically_equal(crate, e):
+        elif semantic_relation(crate, e) == 'eq':
             rep.ok('REF', key, loc(b.raw), 'summary differs textually from the reference but is PROVED equal to it for all well-formed arguments '
                    '(linear entailment over the guarded cases of both): ' + ' | '.join(got_l)[:300], fn=e['path'])
         else:
             d = [l for l in difflib.unified_diff(e['summary'], got_l, 'reference', 'current tree', lineterm='', n=0)
                  if not l.startswith(('---', '+++', '@@'))]
+            rel = semantic_relation(crate, e)
+            direction = {'ge': 'over: proved >= the reference for all well-formed arguments (and different somewhere)',
+                         'le': 'under: proved <= the reference for all well-formed arguments (and different somewhere)'}.get(rel, 'not comparable')
             rep.bad('REF', key, loc(b.raw), 'canonical summary differs: ' + ' ;; '.join(d)[:900],
-                    'reference: ' + ' | '.join(e['summary'])[:600], fn=e['path'], direction='not comparable',
+                    'reference: ' + ' | '.join(e['summary'])[:600], fn=e['path'], direction=direction,
                     why='the value computed by this model function (or one symbolic iteration of its loop) is no longer the '
                         'reviewed one; renames, re-ordering, let-introduction and helper extraction do not change a summary')
     n += check_inventory(rep, crate, prop)
     return n
 
 
-def semantically_equal(crate, e):
-    """closed-form, effect-free, piecewise-linear functions: equality with the reference as *functions* (same value for
-    every argument satisfying the constructor's asserts), decided by sa/linarith.py"""
+_REL_CACHE = {}
+
+
+def semantic_relation(crate, e):
+    """closed-form, effect-free, piecewise-linear functions compared with the reference as *functions* (for every
+    argument satisfying the constructor's asserts), decided by sa/linarith.py: 'eq', 'ge' (current >= reference
+    everywhere), 'le', or None (not decided)"""
+    k = (id(crate), e['path'])
+    if k not in _REL_CACHE:
+        _REL_CACHE[k] = _semantic_relation(crate, e)
+    return _REL_CACHE[k]
+
+
+def _semantic_relation(crate, e):
     if 'cases' not in e:
-        return False
+        return None
     from . import rules_sem, linarith
     import ast
     try:
         ref = ast.literal_eval(e['cases'])
         cur = rules_sem.pure_lin_cases(crate, e['path'])
         if cur is None:
-            return False
+            return None
         wf = rules_sem.self_type_wf(crate, e['path'])
         # divisors are at least 1 on well-formed input (a zero divisor panics in every profile)
         for g, v in cur + ref:
@@ -95,9 +109,15 @@ def semantically_equal(crate, e):
                         f = T.sub(T.const(1), T.as_lin(x[2]))
                         if f not in wf:
                             wf.append(f)
-        return bool(linarith.equal_under(cur, ref, wf)[0])
+        if linarith.equal_under(cur, ref, wf)[0]:
+            return 'eq'
+        if linarith.holds_between(ref, cur, wf, 0, None, steps=True)[0]:
+            return 'ge'
+        if linarith.holds_between(cur, ref, wf, 0, None, steps=True)[0]:
+            return 'le'
+        return None
     except Exception:
-        return False
+        return None
 
 
 MODEL_TRAITS = {'arrival::ArrivalBound': None, 'wcet::JobCostModel': 'C14', 'demand::RequestBound': 'C16',
